@@ -1,6 +1,7 @@
 import TRV.Oracle.Util
 import TRV.Model.Drivers
 import TRV.Spec.Genuine
+import TRV.Spec.Probe
 /-! Oracle operations for the four driver models: one line = configuration + a sequence of
     `s:<ttl>:<now>[:<rnd>]` (SendProbe) and `r:<packet hex>` (ReceiveProbe on that packet) steps;
     the answer has one token per step. -/
@@ -11,12 +12,15 @@ inductive Op where
   | send (ttl now rnd : Nat)
   | recv (pkt : Bytes)
   | judge (pkt : Bytes) (ttl : Nat) (ip : Bytes) (dest : Bool)   -- spec on an implementation outcome
+  | wf (pkt : Bytes) (ttl rnd : Nat)                              -- C06 well-formedness of an emitted probe
 
 def parseOp (s : String) : Option Op :=
   match splitOn s ':' with
   | ["s", t, n] => do pure (.send (← t.toNat?) (← n.toNat?) 0)
   | ["s", t, n, r] => do pure (.send (← t.toNat?) (← n.toNat?) (← r.toNat?))
   | ["r", p] => (parseHex p).map .recv
+  | ["k", p, t] => do pure (.wf (← parseHex p) (← t.toNat?) 0)
+  | ["k", p, t, r] => do pure (.wf (← parseHex p) (← t.toNat?) (← r.toNat?))
   | ["j", p, t, ip, d] => do pure (.judge (← parseHex p) (← t.toNat?) (← parseHex ip) (← parseBool d))
   | _ => none
 
@@ -28,16 +32,17 @@ def showOut : Out → String
 
 /-- generic step loop over a driver state -/
 def runOps {σ : Type} (send : σ → Nat → Nat → Nat → SendRes σ) (recv : σ → Bytes → Out)
-    (judge : σ → Nat → Bytes → Bool → Bytes → Bool) (st : σ) (ops : List Op) : List String :=
+    (judge : σ → Nat → Bytes → Bool → Bytes → Bool) (wf : σ → Bytes → Nat → Nat → Bool) (st : σ) (ops : List Op) : List String :=
   match ops with
   | [] => []
   | .send t n r :: rest =>
     match send st t n r with
-    | .ok st' pkt => s!"w:{toHex pkt}" :: runOps send recv judge st' rest
-    | .err => "serr" :: runOps send recv judge st rest
-  | .recv p :: rest => showOut (recv st p) :: runOps send recv judge st rest
+    | .ok st' pkt => s!"w:{toHex pkt}" :: runOps send recv judge wf st' rest
+    | .err => "serr" :: runOps send recv judge wf st rest
+  | .recv p :: rest => showOut (recv st p) :: runOps send recv judge wf st rest
   | .judge p t a d :: rest =>
-    s!"g:{showBool (judge st t a d (p.take Wire.bufSize))}" :: runOps send recv judge st rest
+    s!"g:{showBool (judge st t a d (p.take Wire.bufSize))}" :: runOps send recv judge wf st rest
+  | .wf p t r :: rest => s!"q:{showBool (wf st p t r)}" :: runOps send recv judge wf st rest
 
 def icmp : Handler
   | l :: t :: e :: mn :: mx :: ops => orBad do
@@ -46,6 +51,8 @@ def icmp : Handler
     let ops ← ops.mapM parseOp
     pure (" ".intercalate (runOps (fun s t n _ => icmpSend s t n) icmpRecv
       (fun s t a d p => if cfg.localA.length = 16 then Spec.genuineIcmp6 s.cfg s.sent t a d p else Spec.genuineIcmp4 s.cfg s.sent t a d p)
+      (fun s p t _ => if cfg.localA.length = 16 then Spec.wfIcmp6 p s.cfg.localA s.cfg.target s.cfg.echoId t
+                      else Spec.wfIcmp4 p s.cfg.localA s.cfg.target s.cfg.echoId t)
       { cfg, sent := [] } ops))
   | _ => badOp
 
@@ -56,6 +63,8 @@ def udp : Handler
     let ops ← ops.mapM parseOp
     pure (" ".intercalate (runOps (fun s t n _ => udpSend s t n) udpRecv
       (fun s t a d p => if cfg.target.length = 16 then Spec.genuineUdp6 s.cfg s.sent t a d p else Spec.genuineUdp4 s.cfg s.sent t a d p)
+      (fun s p t _ => if cfg.target.length = 16 then Spec.wfUdp6 p s.cfg.localA s.cfg.target s.cfg.lport s.cfg.tport t
+                      else Spec.wfUdp4 p s.cfg.localA s.cfg.target s.cfg.lport s.cfg.tport t)
       { cfg, sent := [] } ops))
   | _ => badOp
 
@@ -65,7 +74,9 @@ def tcp : Handler
                           tport := ← tp.toNat?, loosen := ← parseBool lo, paris := ← parseBool pa,
                           baseId := ← base.toNat?, seq := ← sq.toNat? }
     let ops ← ops.mapM parseOp
-    pure (" ".intercalate (runOps tcpSend tcpRecv (fun s t a d p => Spec.genuineTcp s.cfg s.sent t a d p) { cfg, sent := [] } ops))
+    pure (" ".intercalate (runOps tcpSend tcpRecv (fun s t a d p => Spec.genuineTcp s.cfg s.sent t a d p)
+      (fun s p t r => Spec.wfTcpSyn p s.cfg.localA s.cfg.target s.cfg.lport s.cfg.tport (tcpIds s.cfg t r).1 (tcpIds s.cfg t r).2 t)
+      { cfg, sent := [] } ops))
   | _ => badOp
 
 def parseTs (s : String) : Option (Option (Nat × Nat)) :=
@@ -80,7 +91,9 @@ def sack : Handler
                            tport := ← tp.toNat?, loosen := ← parseBool lo, min := ← mn.toNat?,
                            max := ← mx.toNat?, isn := ← isn.toNat?, iack := ← iack.toNat?, ts := ← parseTs ts }
     let ops ← ops.mapM parseOp
-    pure (" ".intercalate (runOps (fun s t n _ => sackSend s t n) sackRecv (fun s t a d p => Spec.genuineSack s.cfg s.sent t a d p) { cfg, sent := [] } ops))
+    pure (" ".intercalate (runOps (fun s t n _ => sackSend s t n) sackRecv (fun s t a d p => Spec.genuineSack s.cfg s.sent t a d p)
+      (fun s p t _ => Spec.wfSack p s.cfg.localA s.cfg.target s.cfg.lport s.cfg.tport ((s.cfg.isn + t) % 4294967296) s.cfg.iack t)
+      { cfg, sent := [] } ops))
   | _ => badOp
 
 def handlers : List (String × Handler) :=
